@@ -422,3 +422,23 @@ Proof.
   destruct (G l empty_tables wf_records_empty wf_index_empty F) as [W WI].
   now apply run_query_is_spec.
 Qed.
+
+(** the window, counted in [N] so that a limit of 2^64-1 is an ordinary value, is skipn / firstn *)
+Lemma skipn_N_spec l : forall n, skipn_N l n = skipn (N.to_nat n) l.
+Proof.
+  induction l as [|x l IH]; intros n; cbn [skipn_N].
+  - now rewrite skipn_nil.
+  - destruct (N.eqb_spec n 0) as [->|NE]; [reflexivity|].
+    rewrite IH. replace (N.to_nat n) with (S (N.to_nat (N.pred n))) by lia. reflexivity.
+Qed.
+Lemma firstn_N_spec l : forall n, firstn_N l n = firstn (N.to_nat n) l.
+Proof.
+  induction l as [|x l IH]; intros n; cbn [firstn_N].
+  - now rewrite firstn_nil.
+  - destruct (N.eqb_spec n 0) as [->|NE]; [reflexivity|].
+    rewrite IH. replace (N.to_nat n) with (S (N.to_nat (N.pred n))) by lia. reflexivity.
+Qed.
+Theorem window_spec q l :
+  window q l = let l' := skipn (N.to_nat (q_offset q)) l in
+                  match q_limit q with Some n => firstn (N.to_nat n) l' | None => l' end.
+Proof. unfold window. rewrite skipn_N_spec. destruct (q_limit q); [apply firstn_N_spec|reflexivity]. Qed.
